@@ -62,6 +62,13 @@ class G:
         for k in range(1, n_bkm + 1):
             name = "Kn%d" % k
             params = ["pa", "pb"][: r.choice([1, 2, 2])]
+            num_inputs = [i["name"] for i in inputs if i["type"] == "number"]
+            if r.random() < 0.35:
+                # formal parameters that carry the names of input data (the X := X habit of real models):
+                # binding formulas and earlier bindings then share names
+                cand = num_inputs[:]
+                r.shuffle(cand)
+                params = [cand[j] if j < len(cand) else p for j, p in enumerate(params)]
             requires = []
             calls = []
             if k > 1 and (shape == "bkm-chain" or r.random() < 0.5):
